@@ -8,6 +8,7 @@ Sources (job["source"]):
                ext["ptype"]   : "dict" | "class"              dict-typed parameters or a paramclass with Optional fields
                ext["spice"]   : name of a vlsirtools.SpiceType member
                mod["lib"]     : None | "a" | "b"              the Python file the Module object is created in (its qualified name)
+               of = ["prim", "Vdc" | "Vpulse", tag]         ideal sources with every parameter given (tag = 0: zero-valued parameters)
                of = ["ext", k, tag] with tag an int (as before) or a dict {param: value}; value = None | int | str |
                     ["f", float-hex] | ["p", decimal-string, PREFIX] | ["l", literal-text]
   example    an example of the repository: every package its main() exports
@@ -119,6 +120,11 @@ class Builder06(Builder):
             self.ptypes.append(x.get("ptype", "dict"))
 
     def target(self, of):
+        if of[0] == "prim" and of[1] == "Vdc":          # ideal sources: every parameter given, value `tag` (0 is a value)
+            return h.Vdc(dc=of[2])
+        if of[0] == "prim" and of[1] == "Vpulse":
+            t = of[2]
+            return h.Vpulse(v1=t, v2=t + 1, delay=t, rise=t + 1, fall=t + 1, width=t + 2, period=t + 5)
         if of[0] == "ext" and isinstance(of[2], dict):
             vals = {k: pvalue(v) for k, v in of[2].items()}
             x = self.exts[of[1]]
